@@ -423,3 +423,32 @@ def format_family(tier):
         f'{s["counters"].get("labels", 0)} labels, {s["findings"]} deviations')
     _family_cache[key] = r
     return r
+
+
+# --------------------------------------------------------------------------------------------
+# MC_Schwab (C18), MC_Awards (C19)
+
+def _conv_family(module, tier, what):
+    key = f'{module}_{tier}'
+    if key in _family_cache:
+        return _family_cache[key]
+    cfgname = f'{module}_{"q" if tier == "quick" else "t"}.cfg'
+    m = tlc(module, os.path.join('cfg', cfgname), workers=8, timeout=3000)
+    m['states'] = max(m['states'], 1)
+    m['transitions'] = max(m['transitions'], 1)
+    log(f'[tlc] {module}/{tier}: {m["states"]} distinct states ({"cached" if m["cached"] else str(m["wall_s"]) + "s"})')
+    wd = workdir(key)
+    out = os.path.join(wd, 'findings.ndjson')
+    s = harness('replay_schwab', ['--in', m['out'], '--out', out])
+    r = {'name': key, 'tlc': m, 'summary': s, 'findings': read_ndjson(out), 'obs': None}
+    log(f'[replay] {module}/{tier}: {s["records"]} {what}, {s["counters"].get("executions", 0)} conversions, {s["findings"]} deviations')
+    _family_cache[key] = r
+    return r
+
+
+def schwab_family(tier):
+    return _conv_family('MC_Schwab', tier, 'exports')
+
+
+def awards_family(tier):
+    return _conv_family('MC_Awards', tier, 'awards files')
